@@ -143,7 +143,7 @@ class FuncV(V):
     def __init__(self, func: FuncInfo, self_obj=None, closure=None):
         self.func = func
         self.self_obj = self_obj
-        self.closure = closure  # index of the defining frame in State.frames, or None
+        self.closure = closure  # snapshot of the defining frame's variables (dict), or None
 
     def __repr__(self):
         return f"Func<{self.func.short}>"
@@ -668,10 +668,9 @@ class Interp:
         while True:
             if e.id in env:
                 return self.val(st, env[e.id])
-            ci = env.get("__closure__")
-            if ci is None:
+            env = env.get("__closure__")
+            if env is None:
                 break
-            env = st.frames[ci]
         return self.val(st, self.lookup_global(e.id, e))
 
     def lookup_global(self, name: str, node) -> V:
@@ -683,6 +682,10 @@ class Interp:
             if name in ff.nested:
                 return FuncV(ff.nested[name])
             ff = ff.parent
+        if f is not None and f.name == "<module>" and f.cls is not None:
+            ca = f.cls.lookup_class_attr(name)  # a class-level initialiser referring to another class attribute
+            if ca is not None:
+                return self.eval_in_module(ca[0], ca[1], node, cls=ca[2])
         if mod is not None:
             ent = self.ix.resolve_name(name, mod)
             if ent is not None:
@@ -708,7 +711,7 @@ class Interp:
             return self.eval_in_module(ent[3], ent[4], node)
         self.unsupported(node, f"entity {k}")
 
-    def eval_in_module(self, expr, mod: ModuleInfo, node) -> V:
+    def eval_in_module(self, expr, mod: ModuleInfo, node, cls=None) -> V:
         """Evaluate a module- or class-level initialiser (constants, simple calls) in a pristine state."""
         try:
             c = const_eval(expr)
@@ -716,7 +719,7 @@ class Interp:
         except NotConst:
             pass
         fake = FuncInfo.__new__(FuncInfo)
-        fake.name, fake.module, fake.node, fake.cls, fake.parent, fake.nested = "<module>", mod, expr, None, None, {}
+        fake.name, fake.module, fake.node, fake.cls, fake.parent, fake.nested = "<module>", mod, expr, cls, None, {}
         fake.decorators, fake.kind = [], "function"
         self.cur_func.append(fake)
         try:
@@ -1059,7 +1062,7 @@ class Interp:
                 return self.val(st, FuncV(m, v))
             ca = v.cls.lookup_class_attr(attr)
             if ca is not None:
-                return self.val(st, self.eval_in_module(ca[0], ca[1], node))
+                return self.val(st, self.eval_in_module(ca[0], ca[1], node, cls=ca[2]))
             if attr == "__class__":
                 return self.val(st, ClassV(v.cls))
             return self.raise_(st, "AttributeError", node)
@@ -1084,7 +1087,7 @@ class Interp:
                         return self.call_function(pm, [v], {}, st, node)
             ca = cls.lookup_class_attr(attr)
             if ca is not None:
-                return self.val(st, self.eval_in_module(ca[0], ca[1], node))
+                return self.val(st, self.eval_in_module(ca[0], ca[1], node, cls=ca[2]))
             if attr == "__name__":
                 return self.val(st, self.from_python(cls.name))
             return self.val(st, OpaqueV(f"{cls.name}.{attr}"))
@@ -1246,7 +1249,7 @@ class Interp:
         while f is not None:
             for nf in f.nested.values():
                 if nf.node is e:
-                    return self.val(st, FuncV(nf, closure=len(st.frames) - 1))
+                    return self.val(st, FuncV(nf, closure=dict(st.env)))
             f = f.parent
         self.unsupported(e, "lambda")
 
@@ -1386,7 +1389,7 @@ class Interp:
         a = fn.args
         params = list(a.posonlyargs) + list(a.args)
         env: dict[str, V] = {}
-        if closure is not None and closure < len(st.frames):
+        if closure is not None:
             env["__closure__"] = closure
         if len(args) > len(params) and a.vararg is None:
             return self.raise_(st, "TypeError", node)
@@ -1514,6 +1517,12 @@ class Interp:
                     return self.val(st, self.from_python(str(int(v.e.const))))
                 n = st.new_sym("strlen", f"len(str({_tag(v)}))")
                 st.add(ge(n, 1 if isinstance(v, IntV) else 0))
+                if isinstance(v, IntV) and st.entails(ge(v.e, 0)):
+                    # decimal digits: 0 <= x <= 10^k - 1  =>  len(str(x)) <= k
+                    for k in range(1, 25):
+                        if st.entails(le(v.e, 10 ** k - 1)):
+                            st.add(le(n, k))
+                            break
                 return self.val(st, SeqV("str", n, [("str-of", n, _tag(v))]))
             if short == "super" and not args and self.cur_func and self.cur_func[-1].cls is not None:
                 f = self.cur_func[-1]
@@ -1576,7 +1585,8 @@ class Interp:
                          "NotImplementedError", "StopIteration", "Exception", "OSError"):
                 return self.val(st, ExtV("exc:" + short))
             if short in ("print", "repr", "id", "type", "callable", "hasattr", "getattr", "sum", "map", "filter",
-                         "sorted", "list", "tuple", "any", "all", "enumerate", "zip", "set", "float", "round", "abs"):
+                         "sorted", "list", "tuple", "any", "all", "enumerate", "zip", "set", "float", "round", "abs",
+                         "reversed"):
                 return self.builtin_misc(short, args, kwargs, st, node)
             self.unsupported(node, f"builtin {short}")
         if name.startswith("struct.Struct:") and short.startswith("Struct:") is False:
@@ -1607,6 +1617,8 @@ class Interp:
         if short in ("list", "tuple") and len(args) == 1 and isinstance(args[0], (ListV, TupleV)):
             its = st.items(args[0])
             return self.val(st, st.new_list(its) if short == "list" else TupleV(its))
+        if short == "reversed" and len(args) == 1 and isinstance(args[0], (ListV, TupleV)):
+            return self.val(st, TupleV(list(reversed(st.items(args[0]))), True))
         if short in ("list", "tuple") and not args:
             return self.val(st, st.new_list([]) if short == "list" else TupleV([]))
         if short == "sum" and len(args) == 1 and isinstance(args[0], (ListV, TupleV)):
@@ -1758,6 +1770,20 @@ class Interp:
                 return self.val(st, self.from_python(getattr(recv.const, attr)(*[a.const for a in args])))
             if attr in ("upper", "lower"):
                 return self.val(st, recv)
+            if attr in ("rjust", "ljust") and recv.kind == "str" and args and self.as_int(args[0]) is not None:
+                n = self.as_int(args[0])
+                fill = args[1].const if len(args) > 1 and isinstance(args[1], SeqV) and args[1].const else " "
+                res = []
+                s1 = st.clone()
+                if s1.add(ge(recv.length, n)):
+                    res.extend(self.val(s1, recv))
+                s2 = st.clone()
+                if s2.add(lt(recv.length, n)):
+                    padlen = n - recv.length
+                    pad = ("repeat", padlen, (padlen, [("const", LinExpr.c(1), fill)]))
+                    pieces = ([pad] + list(recv.pieces)) if attr == "rjust" else (list(recv.pieces) + [pad])
+                    res.extend(self.val(s2, SeqV("str", n, pieces)))
+                return res
             if attr in ("startswith", "endswith", "split", "join", "strip", "replace"):
                 return self.val(st, OpaqueV("str." + attr))
         if isinstance(recv, ListV):
@@ -2209,7 +2235,10 @@ class Interp:
     def s_FunctionDef(self, s, st):
         f = self.cur_func[-1]
         if s.name in f.nested:
-            st.env[s.name] = FuncV(f.nested[s.name], closure=len(st.frames) - 1)
+            snap = dict(st.env)
+            fv = FuncV(f.nested[s.name], closure=snap)
+            snap[s.name] = fv  # the function can refer to itself
+            st.env[s.name] = fv
             return [Out("next", st)]
         self.unsupported(s, "nested def")
 
